@@ -16,3 +16,128 @@ def nontrivial(case, s, infos):
 
 
 check_case, run, replay = gfi_hist.make_prop(CFG, CHECKS, kinds=TOP, nontrivial=nontrivial, examples=(9, 9))
+
+
+# ------------------------------------------------------------------------------------------------
+# distributional part: selected choices are redrawn from their prior given the current parents
+# ------------------------------------------------------------------------------------------------
+
+import math
+
+import numpy as np
+from hypothesis import strategies as st
+
+from vpbt import gfi, gfi_strat, selmodel, stats
+from vpbt.ctx import Violation
+
+DCFG = {"discrete_only": True, "dists": ["flip", "categorical"], "kinds": ["static", "scan", "dimap"], "nmax": 2, "scan_nmin": 1, "depths": [0, 0, 1], "tuple_addrs": False}
+
+
+@st.composite
+def dist_case_strategy(draw):
+    prog = draw(gfi_strat.st_program(cfg=DCFG, kinds=["static", "static", "scan", "dimap"]))
+    prog["key"] = draw(st.integers(0, 2**31 - 1))
+    prog["flag_repr"] = "arr"
+    prog["idx_repr"] = "arr"
+    prog["sel"] = draw(gfi_hist.st_selspec())
+    prog["family"] = "distribution"
+    return prog
+
+
+def check_regen_distribution(case, ctx=None):
+    import jax
+    from genjax import Diff, Regenerate
+
+    node, gf, sg, jargs, nargs, key = gfi.setup(case)
+    k0, k1 = jax.random.split(key)
+    tr = gf.simulate(k0, jargs)
+    run = gfi.ref_run(node, nargs, gfi.chm_lookup(tr.get_choices()))
+    term = gfi_hist.resolve_sel(node, case["sel"])
+    sel_paths = [p for p in run.visited if gfi_hist.selected(term, p)]
+    keep = {p: v for p, v in run.assignment().items() if p not in sel_paths}
+    if not sel_paths:
+        if ctx is not None:
+            ctx.note_case(case, nontrivial=False, classes=["family:distribution", "distribution:nothing-selected"])
+        return
+    outs = gfi.enumerate_program(node, nargs, fixed=keep, limit=64)
+    if outs is None:
+        if ctx is not None:
+            ctx.note_case(case, nontrivial=False, classes=["family:distribution", "distribution:too-many-outcomes"])
+        return
+    paths = sorted({p for asg, _lp, _r in outs for p in asg if p not in keep})
+    table = {}
+    for asg, _lp, r in outs:
+        lp_sel = sum(lp for (p, _v, lp) in r.terms if p not in keep)  # proposal density: the redrawn sites only
+        kk = tuple(int(asg[p]) if p in asg else -1 for p in paths)
+        table[kk] = table.get(kk, 0.0) + math.exp(lp_sel)
+    tot = sum(table.values())
+    if abs(tot - 1.0) > 1e-6:
+        raise AssertionError(f"reference conditional law sums to {tot}")
+    keys_sorted = sorted(table)
+    probs = np.array([table[k] for k in keys_sorted])
+    index = {k: i for i, k in enumerate(keys_sorted)}
+    req = Regenerate(selmodel.build(term))
+    nochange = Diff.no_change(jargs)
+
+    def one(k):
+        t2, _w, _rd, _b = req.edit(k, tr, nochange)
+        chm = t2.get_choices()
+        import jax.numpy as jnp
+
+        vals, flags = [], []
+        for p in paths:
+            v, f = gfi.chm_get_traced(chm, p)
+            vals.append(jnp.asarray(0, dtype=jnp.int32) if v is None else jnp.asarray(v).astype(jnp.int32))
+            flags.append(jnp.asarray(False) if v is None else jnp.asarray(f, dtype=bool))
+        return jnp.stack(vals), jnp.stack(flags)
+
+    sampler = jax.jit(jax.vmap(one))
+    n1 = ctx.pick(20000, 100000) if ctx is not None else 20000
+
+    def stage(n, stg):
+        ks = jax.random.split(jax.random.fold_in(k1, 77 + stg), n)
+        v, f = sampler(ks)
+        v = np.where(np.asarray(f), np.asarray(v), -1)
+        counts = np.zeros(len(keys_sorted))
+        unseen = 0
+        uniq, cnt = np.unique(v, axis=0, return_counts=True)
+        for row, c in zip(uniq, cnt):
+            kk = tuple(int(x) for x in row)
+            if kk in index:
+                counts[index[kk]] += c
+            else:
+                unseen += c
+        if unseen:
+            return True, {"stage": stg, "n": n, "impossible_outcomes_observed": int(unseen)}
+        p, stat, dof = stats.chi2_counts(counts, probs)
+        return p < stats.CHI_TAIL, {"stage": stg, "n": n, "chi2": stat, "dof": dof, "p": p}
+
+    bad, info = stats.two_stage(stage, n1)
+    if bad:
+        raise Violation("regen:distribution", f"regenerated choices are not distributed as the prior given the current parents (selected {sel_paths}): {info}", case)
+    if ctx is not None:
+        strict = 0 < len(sel_paths) < len(run.visited)
+        ctx.note_case(case, nontrivial=strict, classes=["family:distribution", "top:" + node["k"], f"distribution:outcomes:{min(len(table), 8)}"])
+        ctx.extra["regen_samples_drawn"] = ctx.extra.get("regen_samples_drawn", 0) + n1
+
+
+_det_check, _det_run, _det_replay = check_case, run, replay
+
+
+def run(ctx):  # noqa: F811
+    _det_run(ctx)
+
+    def chk(case):
+        check_regen_distribution(case, ctx)
+
+    ctx.run_hypothesis(dist_case_strategy(), chk, ctx.pick(2, 6), salt="distribution")
+
+
+def replay(ctx, case):  # noqa: F811
+    if case.get("family") == "distribution":
+        try:
+            check_regen_distribution(case, None)
+        except Violation as v:
+            ctx.violation(v.klass, v.message, case)
+        return
+    _det_replay(ctx, case)
